@@ -5,7 +5,7 @@ largest-packet-number slots are symbolic (inductive step from an arbitrary state
 
 EXHAUSTIVE = True
 VALIDATE = True
-SITES = ["a3-value", "own-slot-is-max", "other-slots-unchanged", "nonce-fits"]
+SITES = ["no-exception", "a3-value", "own-slot-is-max", "other-slots-unchanged", "nonce-fits"]
 MODELS = ["QuicSession object built with __new__ + set_packet_number_spaces (no I/O)",
           "packet object: duck-typed stub with isserver/packet_type/packet_num"]
 ASSUMPTIONS = ["largest-received slots hold values in [0, 2^62) (RFC 9000 packet number range)",
@@ -88,7 +88,13 @@ def run_config(cfg):
         s, p, keys = _session_and_packet(cfg, ss, cs, pn)
         trunc = shims.IntShim.from_bytes(pn, "big")
         own = (ss if cfg["isserver"] else cs)[_space_of(cfg["ptype"])]
-        out = s.get_full_packet_number(p)
+        from tlv.sx.core import ctx as _ctx
+        try:
+            out = s.get_full_packet_number(p)
+        except Exception as e:
+            _ctx().fail("no-exception", "%s: %s" % (type(e).__name__, e))
+            return {"outcome": "exception"}
+        _ctx().check(True, "no-exception")
         got = shims.IntShim.from_bytes(out, "big")
         # RFC 9000 A.3 as one term
         nbits = 8 * n
